@@ -54,6 +54,7 @@ type client struct {
 	port   int
 	conn   net.Conn
 	plan   clientPlan
+	host   string // "" = 127.0.0.1
 	result string // "" until received
 	err    string
 	sent   bool
@@ -62,7 +63,11 @@ type client struct {
 func (c *client) step(s string) {
 	switch s {
 	case "dial":
-		conn, err := net.DialTimeout("tcp", fmt.Sprintf("127.0.0.1:%d", c.port), 3*time.Second)
+		host := c.host
+		if host == "" {
+			host = "127.0.0.1"
+		}
+		conn, err := net.DialTimeout("tcp", fmt.Sprintf("%s:%d", host, c.port), 3*time.Second)
 		if err != nil {
 			c.err = "dial: " + err.Error()
 			return
@@ -73,7 +78,11 @@ func (c *client) step(s string) {
 			return
 		}
 		c.conn.SetDeadline(time.Now().Add(10 * time.Second))
-		if _, err := c.conn.Write([]byte("GET /ok HTTP/1.1\r\nHost: 127.0.0.1\r\nConnection: close\r\n\r\n")); err != nil {
+		hostHdr := c.host
+		if hostHdr == "" {
+			hostHdr = "127.0.0.1"
+		}
+		if _, err := c.conn.Write([]byte("GET /ok HTTP/1.1\r\nHost: " + hostHdr + "\r\nConnection: close\r\n\r\n")); err != nil {
 			c.err = "send: " + err.Error()
 		}
 		c.sent = true
@@ -173,8 +182,10 @@ func init() {
 
 func listenFDs(port int) int { return kit.ListeningFDs()[port] }
 
-func probe(port int) string {
-	c := &client{port: port}
+func probe(port int) string { return probeAt("", port) }
+
+func probeAt(host string, port int) string {
+	c := &client{port: port, host: host}
 	c.step("dial")
 	c.step("send")
 	c.step("recv")
@@ -203,7 +214,7 @@ func keys(m map[string]bool) []string {
 
 func main() {
 	rep := kit.NewReport("C07", "model_checking",
-		"(1) two clients (one per listen address) x every non-decreasing placement of dial / send / receive over 6 positions of a reload (before, old OnRestart, new OnStartup, new listener about to serve, old OnShutdown, after return) - all 56 placements for each client (3136 pairs) - x 5 reload kinds (ok, failing at parse, setup, startup callback, listen), on a real casket.Start/Instance.Restart over loopback sockets; every client must receive one complete response from the old or the new configuration (new if it dialled after a successful return, old after a failed reload), and after every execution the descriptors of the listening sockets and fresh probes must show exactly the expected configuration; (2) two reloads in a row (pairs of kinds; quick: 4 pairs of kinds and 3 straddling plans, thorough: all 25 pairs and 6 straddling plans) with one client at every placement over the 11 positions and the other straddling both reloads: a client must be answered by a configuration in force between its dial and its answer; (3) a site on an ephemeral port (:0) through 5 sequences of reloads: the port picked at start keeps answering; distinct_nontrivial = outcome classes")
+		"(1) two clients (one per listen address) x every non-decreasing placement of dial / send / receive over 6 positions of a reload (before, old OnRestart, new OnStartup, new listener about to serve, old OnShutdown, after return) - all 56 placements for each client (3136 pairs) - x 5 reload kinds (ok, failing at parse, setup, startup callback, listen), on a real casket.Start/Instance.Restart over loopback sockets; every client must receive one complete response from the old or the new configuration (new if it dialled after a successful return, old after a failed reload), and after every execution the descriptors of the listening sockets and fresh probes must show exactly the expected configuration; (2) two reloads in a row (pairs of kinds; quick: 4 pairs of kinds and 3 straddling plans, thorough: all 25 pairs and 6 straddling plans) with one client at every placement over the 11 positions and the other straddling both reloads: a client must be answered by a configuration in force between its dial and its answer; (3) a site on an ephemeral port (:0) through 5 sequences of reloads: the port picked at start keeps answering; (4) reloads of an unchanged Casketfile text whose imported file or environment value changed; (5) reloads that change the addresses a site binds on one port; distinct_nontrivial = outcome classes")
 	if !rep.IsWorker() {
 		rep.Assume("interleavings inside net/http's accept/serve loops and the kernel backlog are not enumerated (whoever accepts serves its own configuration); client steps run while the reload is held inside its own callbacks")
 		rep.RunWorkers(16)
@@ -494,6 +505,115 @@ func main() {
 				rep.Violation("C07/ephemeral-port/"+strings.SplitN(problems[0], ":", 2)[0], strings.Join(problems, "; "), c07case{strings.Join(seq, ","), nil, nil, nil, strings.Join(problems, "; ")})
 			}
 			rep.Class("ephemeral-port/reloads=" + strings.Join(seq, ","))
+		}
+	}
+	// (4) the Casketfile's text stays the same while what it refers to changes (an imported file is edited, an environment
+	// value changes): a reload that reports success serves the new meaning
+	if next() {
+		body := filepath.Join(dir, "site-body.conf")
+		text := fmt.Sprintf("127.0.0.1:%d {\n\timport %s\n\theader / X-E {$C07_E}\n\tstatus 204 /ok\n}\n", p0, body)
+		in := casket.CasketfileInput{Contents: []byte(text), Filepath: filepath.Join(dir, "Casketfile"), ServerTypeName: "http"}
+		for _, seq := range [][]string{{"import"}, {"env"}, {"import", "env"}, {"none", "import"}, {"import", "none"}} {
+			ver := 1
+			write := func() { os.WriteFile(body, []byte(fmt.Sprintf("header / X-V v%d\n", ver)), 0o644) }
+			write()
+			os.Setenv("C07_E", "e1")
+			reloading = false
+			inst, err := casket.Start(in)
+			if err != nil {
+				rep.Broken("same text: start: %v", err)
+			}
+			var problems []string
+			for r, what := range seq {
+				switch what {
+				case "import":
+					ver++
+					write()
+				case "env":
+					os.Setenv("C07_E", fmt.Sprintf("e%d", r+2))
+				}
+				ni, rerr := inst.Restart(in)
+				if rerr != nil {
+					problems = append(problems, fmt.Sprintf("reload #%d (%s changed) failed: %v", r+1, what, rerr))
+					break
+				}
+				inst = ni
+				c := &client{port: p0}
+				c.step("dial")
+				c.step("send")
+				if c.conn != nil && c.err == "" {
+					if resp, err := http.ReadResponse(bufio.NewReader(c.conn), nil); err == nil {
+						got := fmt.Sprintf("%d %s %s", resp.StatusCode, resp.Header.Get("X-V"), resp.Header.Get("X-E"))
+						want := fmt.Sprintf("204 v%d %s", ver, os.Getenv("C07_E"))
+						if got != want {
+							problems = append(problems, fmt.Sprintf("probe-after-reload: after reload #%d (%s changed, the Casketfile's own text did not) the site answered %q, want %q", r+1, what, got, want))
+						}
+						resp.Body.Close()
+					} else {
+						problems = append(problems, "probe-after-reload: "+err.Error())
+					}
+					c.conn.Close()
+				} else {
+					problems = append(problems, "probe-after-reload: "+c.err)
+				}
+			}
+			rep.Eval(1)
+			transitions += int64(len(seq))
+			casket.Stop()
+			if len(problems) > 0 {
+				rep.Violation("C07/same-text/"+strings.SplitN(problems[0], ":", 2)[0], strings.Join(problems, "; "), c07case{strings.Join(seq, ","), nil, nil, nil, strings.Join(problems, "; ")})
+			}
+			rep.Class("same-text/changes=" + strings.Join(seq, ","))
+		}
+		os.Unsetenv("C07_E")
+	}
+	// (5) the address a site binds changes, its port does not: after the reload the new address answers with the new configuration
+	// and the address that was given up refuses connections
+	if next() {
+		cfgB := func(v int, hosts string) string {
+			out := ""
+			for _, h := range strings.Fields(hosts) { // (one site per bound address)
+				out += fmt.Sprintf("%s:%d {\n\tbind %s\n\theader / X-V v%d\n\tstatus 204 /ok\n}\n", h, p0, h, v)
+			}
+			return out
+		}
+		for _, seq := range [][]string{{"127.0.0.1", "127.0.0.2"}, {"127.0.0.1", "127.0.0.1 127.0.0.2"}, {"127.0.0.1 127.0.0.2", "127.0.0.2"}, {"127.0.0.2", "127.0.0.3", "127.0.0.2"}} {
+			reloading = false
+			inst, err := casket.Start(casket.CasketfileInput{Contents: []byte(cfgB(1, seq[0])), Filepath: filepath.Join(dir, "Casketfile"), ServerTypeName: "http"})
+			if err != nil {
+				rep.Broken("bind hosts: start: %v", err)
+			}
+			var problems []string
+			for r, hosts := range seq[1:] {
+				ni, rerr := inst.Restart(casket.CasketfileInput{Contents: []byte(cfgB(r+2, hosts)), Filepath: filepath.Join(dir, "Casketfile"), ServerTypeName: "http"})
+				if rerr != nil {
+					problems = append(problems, fmt.Sprintf("reload #%d failed: %v", r+1, rerr))
+					break
+				}
+				inst = ni
+				for _, h := range []string{"127.0.0.1", "127.0.0.2", "127.0.0.3"} {
+					got := probeAt(h, p0)
+					bound := strings.Contains(" "+hosts+" ", " "+h+" ")
+					want := fmt.Sprintf("204 v%d", r+2)
+					for w := 0; !bound && !strings.HasPrefix(got, "dial:") && w < 100; w++ { // the old instance closes its listener while it drains: allow it two seconds
+						time.Sleep(20 * time.Millisecond)
+						got = probeAt(h, p0)
+					}
+					if bound && got != want {
+						problems = append(problems, fmt.Sprintf("probe-after-reload: %s:%d (bound by the new configuration) answered %q after reload #%d, want %q", h, p0, got, r+1, want))
+					}
+					if !bound && !strings.HasPrefix(got, "dial:") {
+						problems = append(problems, fmt.Sprintf("address-given-up-still-answers: %s:%d is not bound by the new configuration and answered %q after reload #%d", h, p0, got, r+1))
+					}
+				}
+			}
+			rep.Eval(1)
+			transitions += int64(len(seq))
+			casket.Stop()
+			if len(problems) > 0 {
+				rep.Violation("C07/bind-hosts/"+strings.SplitN(problems[0], ":", 2)[0], strings.Join(problems, "; "), c07case{strings.Join(seq, " -> "), nil, nil, nil, strings.Join(problems, "; ")})
+			}
+			rep.Class("bind-hosts/" + strings.Join(seq, " -> "))
 		}
 	}
 	rep.AddInt("states", int64(len(states)))
